@@ -208,6 +208,21 @@ pub fn run(o: &DriveOpts, out: &mut dyn Write, tid: usize) -> Value {
                 && rec.call(&mut w, HCall { h: 0, call: Call::Put { v: b, d: datas[i % datas.len()].clone() } });
         }
     }
+    if profile == "pairs" {
+        // the graph completely packed with two-vertex groups (capacity / 2 of them, at most 14), each then read and collected
+        let k = (o.cap / 2).min(14);
+        for i in 0..k {
+            ok = ok
+                && rec.call(&mut w, HCall { h: 0, call: Call::Add { v: 2 * i } })
+                && rec.call(&mut w, HCall { h: 0, call: Call::Add { v: 2 * i + 1 } })
+                && rec.call(&mut w, HCall { h: 0, call: Call::Bind { v1: 2 * i, v2: 2 * i + 1, a: labels[i % labels.len().min(o.n.max(1))].clone() } });
+        }
+        for i in 0..k {
+            ok = ok
+                && rec.call(&mut w, HCall { h: 0, call: Call::Put { v: 2 * i + 1, d: datas[i % datas.len()].clone() } })
+                && rec.call(&mut w, HCall { h: 0, call: Call::Data { v: 2 * i + 1 } });
+        }
+    }
     if profile == "big16" {
         // grow one group to 16 members, by both join directions
         ok = ok && rec.call(&mut w, HCall { h: 0, call: Call::Add { v: 0 } });
